@@ -108,6 +108,8 @@ def c01(run):
     r_width.run_a(run, P)
     r_fixup.run_stale(run, P, only=_codec_funcs(P))
     r_fixup.run_pairing(run, P)
+    from rules import r_stalecopy
+    r_stalecopy.run_scalar(run, P)       # no stale copy of the running option number across an appending call
     run.min_instances('R-CODEC-TAB', 30)
     run.min_instances('R-FIXUP', 8)
     run.assumptions = ASSUME_COMMON + ["equality of parse(serialise(m)) with m over the message space and insertion-order stability are NOT decided"]
@@ -144,6 +146,8 @@ def c04(run):
     r_width.run_a(run, P)
     r_fixup.run_stale(run, P, only=_codec_funcs(P))
     r_fixup.run_pairing(run, P)
+    from rules import r_stalecopy
+    r_stalecopy.run_scalar(run, P)
     from rules import r_codec
     r_codec.run(run, P)
     r_codec.run_toklen(run, P)
@@ -223,6 +227,7 @@ def c08(run):
     r_cnt.run(run, P)
     r_cnt.run_dequeue(run, P)
     r_cnt.run_counted_queued(run, P)
+    r_cnt.run_reset_drains(run, P)
     from rules import r_ownnode
     r_ownnode.run_queue_key(run, P)       # the node an ACK/RST retires is the one of that session and message id
     run.min_instances('R-CNT-CON', 8)
@@ -242,6 +247,8 @@ def c06(run):
     r_ownnode.run_retrans(run, P)
     r_ownnode.run_waitack(run, P)
     r_ownnode.run_queue_key(run, P)
+    from rules import r_cnt
+    r_cnt.run_counted_queued(run, P)     # a counted Confirmable is queued for retransmission (or un-counted): it cannot vanish without an outcome
     run.min_instances('R-OWN-NODE', 8)
     run.min_instances('R-RETRANS', 2)
     run.assumptions = ASSUME_COMMON + ["timing (T, 2T, 4T; reported wait <= earliest deadline), byte-identical retransmission and behaviour under loss patterns are NOT decided",
@@ -397,6 +404,8 @@ def c07(run):
     from rules import r_response
     P = run.prog('rel')
     r_response.run(run, P)
+    from rules import r_width
+    r_width.run_c(run, P)        # the 'none yet' sentinels of the duplicate filter (last_con_mid / last_ack_mid) stay outside the mid space
     run.min_instances('R-RESP', 4)
     run.assumptions = ASSUME_COMMON + ["exactly-once conclusion over all patterns of loss / duplication / delay, the NACK side (coap_retransmit give-up, decided under C06) and the "
                                        "server's separate-response machinery are NOT decided; returns of handle_response() that never reach the handler (token-size / Q-Block "
@@ -406,7 +415,8 @@ def c07(run):
         "reached on the arm rcvd->mid == session->last_con_mid, that arm answers exactly once and returns, last_con_mid recorded on the other arm before the "
         "handler); exactly one ACK/RST for the received PDU after the handler, the Reset exactly on the FAIL-and-not-ACK arm, with the recorded verdict "
         "agreeing; a non-ACK response cancels the request's retransmission by token before the handler; a response consumed by sending the next Block1 is "
-        "acknowledged (R-RESP).")
+        "acknowledged (R-RESP). Library-wide, a named constant stored into a record field fits the field's type, so the "
+        "COAP_INVALID_MID marker of the duplicate filter cannot wrap onto a legal message id (R-WIDTH c).")
 
 
 def c11(run):
@@ -415,14 +425,16 @@ def c11(run):
     r_observe.run_replace(run, P)
     r_observe.run_con(run, P)
     r_observe.run_rst(run, P)
+    r_observe.run_dirty(run, P)
     run.assumptions = ASSUME_COMMON + ["freshness / ordering of Observe values, 'the last state is eventually notified', NSTART back-pressure and every deregistration route other than "
                                        "the Reset with a matching queue node are NOT decided; 'the session stays alive while it has observers' is the holder rule of C12"]
     return run.finish(
-        "Three clauses the statement of C11 names, each visible in the shape of one function on every path: a new subscription is created only after the "
+        "Four clauses the statement of C11 names, each visible in the shape of one function on every path: a new subscription is created only after the "
         "look-up by session and token came out NULL and a subscription found for the same request was deleted (R-OBS-REPLACE, coap_add_observer); a "
         "notification is made Non-confirmable only below COAP_OBS_MAX_NON consecutive ones (or NON_ALWAYS / the final 4.04) and the counter is reset / "
         "incremented to match the chosen type before the transmission (R-OBS-CON, coap_notify_observers); a Reset that matches a queued message reaches "
-        "coap_cancel(), which removes the observer (R-OBS-RST, coap_dispatch).")
+        "coap_cancel(), which removes the observer (R-OBS-RST, coap_dispatch); an observer skipped before its notification was handed to the transmit path is marked "
+        "dirty so that the partially-dirty pass visits it again (R-OBS-DIRTY, coap_notify_observers).")
 
 
 PROPS = {
